@@ -700,8 +700,11 @@ def main_check(modname: str, argv: List[str]) -> int:
             seen[key] = None
             k = next((k for k in known if k["signature"] == v["violation"]["signature"]), None)
             if k is not None:
-                print(f"KNOWN-FINDING: property={prop} {k['text']}")
-                known_printed += 1
+                if not k.get("printed"):
+                    k["printed"] = "1"
+                    desc = k["text"].split(None, 2)[2] if len(k["text"].split(None, 2)) > 2 else ""
+                    print(f"KNOWN-FINDING: property={prop} {desc} [signature={k['signature']}]")
+                    known_printed += 1
                 continue
             if reported >= 3:
                 continue
